@@ -36,13 +36,56 @@ OUT_FORM = {("S", "S"): "S"}
 MATRIX_CRATES = ["mech_math.lib", "mech_compare.lib", "mech_logic.lib"]
 
 
+def params_of_type(it, type_rx):
+    """names of the parameters of a fn/method item whose declared type matches type_rx (a role is a POSITION + TYPE in the signature, never a spelling)"""
+    out = []
+    for pat, ty in (it.get("sig") or {}).get("inputs", []):
+        if is_node(pat) and re.search(type_rx, (ty or "").replace(" ", "")):
+            out += [b[1] for b in find(pat, "pident")]
+    return out
+
+
+def strip_borrow(e):
+    """`&x`, `&mut x`, `(x)`, `x.iter()`, `x.iter().enumerate()`, `x.clone()` -> x  (the collection a loop walks)"""
+    while is_node(e):
+        if e[0] == "ref":
+            e = e[2]
+        elif e[0] == "paren":
+            e = e[1]
+        elif e[0] == "mcall" and e[2] in ("iter", "iter_mut", "into_iter", "enumerate", "clone", "borrow", "as_ref") and not e[4]:
+            e = e[1]
+        else:
+            break
+    return e
+
+
+def loop_bindings_over_field(body, owners, field):
+    """for every `for PAT in <owner>.<field>` (owner one of the given locals; borrowed / .iter()'d forms included): the loop node and PAT"""
+    out = []
+    for f in find(body, "for"):
+        src = strip_borrow(f[2])
+        if is_node(src) and src[0] == "field" and src[2] == field and path_of(strip_borrow(src[1])) in owners:
+            out.append(f)
+    return out
+
+
 def term_routing(F):
-    """operator variant -> set of native compiler struct names, read from the arms of term()"""
+    """operator variant -> set of native compiler struct names, read from the arms of term().
+    The operator is recognised by provenance, not by spelling: it is the first component of what the loop over `<the &Term parameter>.rhs`
+    (the list of (operator, operand) pairs) binds; the routing table is the `match` on that binding whose arms are FormulaOperator patterns."""
     out = defaultdict(set)
     for it in F.syn("mech_interpreter.lib"):
         if it["k"] == "fn" and it["name"] == "term" and it["mod"].endswith("expressions"):
+            terms = params_of_type(it, r"^&(mut)?Term$")
+            ops = set()
+            for lp in loop_bindings_over_field(it["body"], set(terms), "rhs"):
+                pat = lp[1]
+                while pat[0] in ("pref", "ptype"):
+                    pat = pat[2] if pat[0] == "pref" else pat[1]
+                if pat[0] == "ptuple" and pat[1] and pat[1][0][0] == "pident":
+                    ops.add(pat[1][0][1])
             for m in find(it["body"], "match"):
-                if path_of(m[1]) != "op":
+                if path_of(strip_borrow(m[1])) not in ops:
                     continue
                 for arm in m[2]:
                     p = arm[0]
@@ -174,15 +217,69 @@ def shape_asserting(k):
             and ws[0].value[2][0] == "whole" and ws[0].value[3][0] == "whole")
 
 
+SHAPEISH = re.compile(r"shape|len|nrows|ncols|rows|cols|size|dims")
+
+
+def local_initialisers(node):
+    """alias map of the locals bound inside `node`: name -> the expression it was initialised from (`let (a, b) = e` gives a -> e.0, b -> e.1,
+    or the matching component when e is a tuple literal); locals bound by anything else (match / closure / for patterns, `let x;`) map to None"""
+    env = {}
+    for b in find(node, "pident"):
+        env.setdefault(b[1], None)
+    for st in walk(node):
+        if st[0] in ("let", "letc") and len(st) > 2 and st[2] is not None and is_node(st[1]):
+            pat = st[1]
+            while pat[0] == "ptype":
+                pat = pat[1]
+            if pat[0] == "pident":
+                env[pat[1]] = st[2]
+            elif pat[0] == "ptuple":
+                for i, sub in enumerate(pat[1]):
+                    while is_node(sub) and sub[0] == "ptype":
+                        sub = sub[1]
+                    if is_node(sub) and sub[0] == "pident":
+                        env[sub[1]] = st[2][1][i] if (is_node(st[2]) and st[2][0] == "tuple" and len(st[2][1]) == len(pat[1])) else ["field", st[2], str(i)]
+    return env
+
+
+def provenance_text(e, env, extra_locals=(), depth=0):
+    """render `e` with every local replaced by what it was computed from (transitively); locals without an initialiser (pattern binders) become `_`.
+    The text therefore contains callee / method / field / type names only - never the spelling of a local."""
+    def sub(x, d, busy):
+        if not is_node(x):
+            if isinstance(x, list):
+                return [sub(y, d, busy) for y in x]
+            return x
+        if x[0] == "path" and isinstance(x[1], str) and "::" not in x[1] and (x[1] in env or x[1] in extra_locals):
+            init = env.get(x[1])
+            if init is None or d > 12 or x[1] in busy:
+                return ["path", "_"]
+            return sub(init, d + 1, busy | {x[1]})
+        if x[0] == "macro":
+            return ["macro", x[1], ""]           # token text of a macro is not resolved; its name stays
+        return [x[0]] + [sub(y, d, busy) for y in x[1:]]
+    return render(sub(e, depth, frozenset()))
+
+
 def arm_has_shape_guard(arm):
-    """conservative: any comparison/match in the arm body whose condition mentions a shape quantity of lhs and of rhs
-    (directly or via locals), leading to an Err/return/panic"""
+    """conservative: any comparison/match in the arm body whose condition mentions a shape quantity of the first and of the second operand
+    (directly or via locals), leading to an Err/return/panic.  The operands are what the arm's pattern binds (position in the tuple pattern);
+    a condition is 'about shapes' when, after replacing every local by the expression it was computed from, it calls / reads something shape-like
+    (`shape()`, `len()`, `nrows()` ...) - the spelling of the locals plays no role."""
     body = arm.body
-    lset, rset = {"lhs"}, {"rhs"}
     binders = [p[2] for p in arm.pats]
-    if len(binders) == 2:
-        lset, rset = {binders[0] or "lhs"}, {binders[1] or "rhs"}
-    shapeish = re.compile(r"shape|len|nrows|ncols|rows|cols|size|dims")
+    if len(binders) != 2:
+        return False
+    scr = getattr(arm, "scrut", None) or [None, None]
+    lset, rset = set(), set()
+    for s_, b_, comp in ((lset, binders[0], scr[0] if len(scr) == 2 else None), (rset, binders[1], scr[1] if len(scr) == 2 else None)):
+        if b_:
+            s_.add(b_)
+        elif comp is not None:
+            # operand not bound by the pattern: it can only be referred to through the scrutinee component
+            s_ |= {x[1] for x in find(comp, "path") if "::" not in x[1]}
+    env = local_initialisers(body)
+    extra = set(b for b in binders if b)
     stmts = body[1] if is_node(body) and body[0] == "block" else []
     for st in stmts:
         if st[0] == "let" and st[2] is not None:
@@ -211,8 +308,7 @@ def arm_has_shape_guard(arm):
                     return True
         if cond is not None:
             used = {x[1] for x in find(cond, "path")}
-            txt = render(cond)
-            if used & lset and used & rset and shapeish.search(txt):
+            if used & lset and used & rset and SHAPEISH.search(provenance_text(cond, env, extra)):
                 return True
     return False
 
@@ -429,6 +525,54 @@ def shape_guard_truth_table(arm, g1, g2):
     return "exact", "%d shape pairs" % n
 
 
+def anonymous_pat(p):
+    """a pattern rendered without the spelling of its bindings (`Value::MutableReference(lhs)` -> `Value::MutableReference(_)`): usable in keys"""
+    def sub(x):
+        if isinstance(x, list):
+            if x and x[0] == "pident":
+                return sub(x[4]) if len(x) > 4 and x[4] else ["pwild"]
+            return [sub(y) for y in x]
+        return x
+    return re.sub(r"\s+", "", render_pat(sub(p)))
+
+
+def operand_forwarding(rep, rule, where, arm_pat, body, callee_rx, label):
+    """in a match arm over a 2-tuple, the call to the dispatcher must receive a value built from the first component first.
+    Operands are identified by the POSITION of the tuple component that binds them; locals computed from an operand inherit its position.
+    (same decision procedure as rules.c14.positional_args; the violation key names the arm by its pattern WITHOUT binding names)"""
+    alts = arm_pat[1] if arm_pat[0] == "por" else [arm_pat]
+    n = 0
+    for alt in alts:
+        if alt[0] != "ptuple" or len(alt[1]) != 2:
+            continue
+        pos = {}
+        for i, comp in enumerate(alt[1]):
+            for b in find(comp, "pident"):
+                pos[b[1]] = i
+        for node in list(find(body, "letc")) + [l for l in find(body, "let") if len(l) == 4]:
+            init = node[2]
+            if init is None:
+                continue
+            names = [x[1] for x in find(init, "path") if x[1] in pos]
+            if names:
+                for b in find(node[1], "pident"):
+                    pos.setdefault(b[1], pos[names[0]])
+        for c in find(body, "call"):
+            p = path_of(c[1])
+            if not p or not re.search(callee_rx, p) or len(c[2]) != 2:
+                continue
+            n += 1
+            got = []
+            for a in c[2]:
+                names = [x[1] for x in find(a, "path") if x[1] in pos]
+                got.append({pos[x] for x in names})
+            ok = got[0] == {0} and got[1] == {1}
+            rep.check(ok, rule, "%s:%s" % (label, "operands-in-order") if ok else "%s:operands-swapped:%s" % (label, anonymous_pat(alt)[:60]),
+                      "%s: in the arm `%s` the dispatcher call `%s` receives its operands in positions %s instead of (first, second): the operator is applied to swapped operands for this storage-form combination" % (
+                          label, render_pat(alt)[:100], render(c)[:90], [sorted(g) for g in got]), where)
+    return n
+
+
 def run(F, rep, tier):
     global DOM
     DOM = (1, 2, 3, 4) if tier == "thorough" else (1, 2, 3)
@@ -594,7 +738,6 @@ def run(F, rep, tier):
         rep.bad("C01-R3", "unrecognised-kernels:%s" % ",".join(sorted(unrec)), "kernels the normal-form evaluator cannot read (extend the idiom table): %s" % unrec)
 
     # ---- R6: operand positions preserved by NativeFunctionCompiler::compile (incl. the MutableReference fallback arms)
-    from rules.c14 import positional_args
     rep.rule("C01-R6", "NativeFunctionCompiler::compile hands (first, second) operand to the dispatcher in that order in every arm (non-commutative operators)")
     npos_total = 0
     done = set()
@@ -607,7 +750,7 @@ def run(F, rep, tier):
             if it["k"] == "method" and it["name"] == "compile" and it["trait"] and last_seg(it["trait"]) == "NativeFunctionCompiler" and X.type_head(it["self"]) == nfc:
                 for mt in find(it["body"], "match"):
                     for arm in mt[2]:
-                        npos_total += positional_args(rep, "C01-R6", "%s::compile (%s)" % (nfc, crate), arm[0], arm[2], r"_fxn$", "%s::compile" % nfc)
+                        npos_total += operand_forwarding(rep, "C01-R6", "%s::compile (%s)" % (nfc, crate), arm[0], arm[2], r"_fxn$", "%s::compile" % nfc)
     rep.floor("C01-R6", "operand-forwarding arms in non-commutative operator compilers", npos_total, 20)
 
     # ---- unary operators (factor): Negate / Not
@@ -677,7 +820,8 @@ def run_r9(F, rep):
         casts = [render(c)[:30] for c in find(body, "cast")]
         # operands: only `.0` of self / other
         fields = {render(f) for f in find(body, "field")}
-        ok_fields = fields <= {"self.0", "other.0", "rhs.0"}
+        operands = {"self"} | set(params_of_type(it, r"."))        # the receiver and whatever the signature calls the other operand
+        ok_fields = fields <= {"%s.0" % o for o in operands}
         sym = OPS[tr]
         has_op = sym in ("partial_cmp", "cmp") or any((b[1] == sym) for b in find(body, "bin")) or (tr == "Neg" and any(u[1] == "-" for u in find(body, "un")))
         if sym in ("partial_cmp", "cmp"):
